@@ -158,7 +158,7 @@ bool containsCall(const Node& n) { if (n.k == K::FuncCall) return true; for (aut
 
 // ------------------------------------------------------------------------------------------------
 // C03
-std::vector<Node> arityFamily(); std::vector<Node> curated();
+std::vector<Node> arityFamily(); std::vector<Node> siblingFamily(); std::vector<Node> curated();
 void run_types(Ctx& c, const Setup& setup, const rsgen::Generator& gen, int depth) {
   ImplEnv env(setup);
   uint64_t i = 0;
@@ -221,7 +221,7 @@ void run_types(Ctx& c, const Setup& setup, const rsgen::Generator& gen, int dept
     if (i % 7919 == 5) c.rep.sample(rsast::render(T, RenderOpt{}).text + (modelOk ? "  :  " + mr.type.str() : "  :  ill-typed (" + mr.why + ")"));
     c.done();
   };
-  try { for (auto& n : arityFamily()) one(Node(n)); for (auto& n : curated()) one(Node(n)); gen.scopeSkeletons(static_cast<int>(c.opt->num("scopebudget", 6)), one); gen.closedStream(depth, one); gen.imperativeChains(one, 2); streamDefinitions(gen, one); } catch (const StopEnumeration&) {}
+  try { for (auto& n : arityFamily()) one(Node(n)); for (auto& n : siblingFamily()) one(Node(n)); for (auto& n : curated()) one(Node(n)); gen.scopeSkeletons(static_cast<int>(c.opt->num("scopebudget", 6)), one); gen.closedStream(depth, one); gen.imperativeChains(one, 2); streamDefinitions(gen, one); } catch (const StopEnumeration&) {}
 }
 
 
@@ -428,6 +428,22 @@ std::vector<Node> arityFamily() {
   return out;
 }
 
+// Sibling-scope family (added after a round-6 seed): the SAME local name bound twice in sibling scopes over domains of different
+// structure, each body using the variable according to one of the structures - every (domain, body) x (domain, body) combination.
+std::vector<Node> siblingFamily() {
+  const std::vector<std::string> doms = { "X1", "S1", "S2", "S4" };
+  const std::vector<std::string> bodies = { "a\xE2\x88\x88" "D1", "pr1(a)\xE2\x88\x88" "D1", "pr2(a)=pr2(a)", "a\xE2\x8A\x86X1", "card(a)=1", "a=a", "pr2(a)\xE2\x8A\x86X1", "a\xE2\x88\x88S1" };
+  std::vector<std::string> texts;
+  for (auto& da : doms) for (auto& db : doms) for (auto& ba : bodies) for (auto& bb : bodies) {
+    texts.push_back("\xE2\x88\x80" "a\xE2\x88\x88" + da + " " + ba + " & \xE2\x88\x80" "a\xE2\x88\x88" + db + " " + bb);
+    texts.push_back("\xE2\x88\x83" "a\xE2\x88\x88" + da + " " + ba + " \xE2\x88\xA8 \xE2\x88\x83" "a\xE2\x88\x88" + db + " " + bb);
+    texts.push_back("card(D{a\xE2\x88\x88" + da + " | " + ba + "})+card(D{a\xE2\x88\x88" + db + " | " + bb + "})");
+  }
+  std::vector<Node> out; rl::Parser p;
+  for (auto& t : texts) { if (!p.Parse(t, rl::Syntax::MATH)) { fprintf(stderr, "HARNESS-ASSERT: sibling-family text does not parse: %s\n", t.c_str()); exit(2); } out.push_back(fromImplTree(p.AST().Root())); }
+  return out;
+}
+
 bool isDeclaration(const Node& n) { return n.k == K::FuncDef || n.k == K::Define || n.k == K::Struct; }
 
 const char* errName(uint32_t eid) {
@@ -525,7 +541,7 @@ void run_eval(Ctx& c, const Setup& setup, const rsgen::Generator& gen, int depth
     if (i % 4001 == 3) c.rep.sample(text + "  under " + std::to_string(interps) + " interpretations");
     c.done();
   };
-  try { for (auto& n : curated()) one(Node(n)); for (auto& n : arityFamily()) one(Node(n)); gen.imperativeChains(one, static_cast<size_t>(c.opt->num("impblocks", compareModel ? 3 : 2)), static_cast<size_t>(c.opt->num("impcap", compareModel ? 5 : 3))); gen.closedStream(depth, one); } catch (const StopEnumeration&) {}
+  try { for (auto& n : curated()) one(Node(n)); for (auto& n : arityFamily()) one(Node(n)); for (auto& n : siblingFamily()) one(Node(n)); gen.imperativeChains(one, static_cast<size_t>(c.opt->num("impblocks", compareModel ? 3 : 2)), static_cast<size_t>(c.opt->num("impcap", compareModel ? 5 : 3))); gen.closedStream(depth, one); } catch (const StopEnumeration&) {}
 }
 
 }  // namespace
